@@ -86,6 +86,21 @@ def special_value(fam, n, kind):
     raise KeyError(kind)
 
 
+LOC_LIKE = {"Normal": "mu", "Weibull": "gamma", "LogNormal": "mu", "VonMises": "mu", "ScipyGamma": "loc",
+            "ScipyRayleigh": "loc", "ScipyBeta": "loc"}
+
+
+# parameters that move the boundary of the support: with one of them free the likelihood is not regular
+# (unbounded for shape < 1, maximiser on the data boundary) - the recorded limits of C12; the likelihood
+# statement of FreeEstimated is made for the cases in which they are fixed
+BOUNDARY = {"Weibull": ["gamma"], "ScipyGamma": ["loc"], "ScipyRayleigh": ["loc"], "ScipyBeta": ["loc", "scale"]}
+
+
+def flipped(case):
+    """regular cases: the location-like fixed value is NEGATIVE for every second (variant, data kind)"""
+    return (case.get("variant", 0) + (case["data"] == "other")) % 2 == 1
+
+
 def fixed_for(case):
     """name -> declared fixed value of a case"""
     fam = case["fam"]
@@ -99,7 +114,10 @@ def fixed_for(case):
         return {}
     if special != "regular":
         return {case["sname"]: special_value(fam, case["sname"], special)}
-    return {n: FIXED[fam][n] for n in case["F"]}
+    fx = {n: FIXED[fam][n] for n in case["F"]}
+    if flipped(case) and LOC_LIKE.get(fam) in fx:
+        fx[LOC_LIKE[fam]] = -fx[LOC_LIKE[fam]]
+    return fx
 
 
 def start_for(case):
@@ -204,10 +222,16 @@ def fit_record(vc, rid, case, seed=0):
                sname=case.get("sname", "none"), fam=fam, F=F, fitm=fitm, data=dk, variant=variant, exc="",
                cdev=BIG, fattr=False, evalsame=False, evalkeep=False,
                outcome1="none", fdev1=BIG, free1changed=False, free1finite=False,
-               outcome2="none", fdev2=BIG, free2changed=False, free2finite=False)
+               outcome2="none", fdev2=BIG, free2changed=False, free2finite=False,
+               llgen1=BIG, llpert1=BIG, llgen2=BIG, llpert2=BIG, llfit=[])
     rng = np.random.default_rng([seed, variant, sum(map(ord, fam + fitm + dk + special + "".join(F)))])
     n = [400, 250, 900, 400][variant % 4]
-    gen = own_data if dk == "own" else other_data
+    # own-family data are generated WITH the fixed parameters at their fixed values (regular cases and
+    # f_<n>=None cases): the generating parameters then satisfy the constraints of the fit
+    genpar = None
+    if dk == "own" and special in ("regular", "none") and fam != "ScipyVonMises":
+        genpar = {k: (fx[k] if k in fx else D.STORED[fam][k]) for k in names}
+    gen = (lambda f, m, r: own_data(f, m, r, genpar)) if genpar else (own_data if dk == "own" else other_data)
     if special == "wrap":     # directions centred at the fixed value 4.0 rad (scipy/numpy return them in [-pi, pi])
         gen = lambda f, m, r: own_data(f, m, r, dict(D.STORED[f], **{"loc" if f == "ScipyVonMises" else "mu": 4.0}))
     data1, data2 = gen(fam, n, rng), gen(fam, n, rng)
@@ -253,6 +277,31 @@ def fit_record(vc, rid, case, seed=0):
                 rec[f"free{k}finite"] = all(np.ndim(cur[m]) == 0 and np.isfinite(cur[m]) for m in free)
                 ok_attr = ok_attr and fattr_ok(dist, fam, fx)
                 prev = cur
+                if oc == "ok" and fitm == "mle" and fam == "NormFit":
+                    # the family's estimator IS the sample mean / sample standard deviation (ddof = 1)
+                    want = {"mu_norm": float(np.mean(data)), "sigma_norm": float(np.std(data, ddof=1))}
+                    okm = all(float(cur[m]) == want[m] for m in free)
+                    rec[f"llpert{k}"] = 0 if okm else -BIG
+                elif (oc == "ok" and fitm == "mle" and fam != "ScipyVonMises"
+                        and all(b in fx for b in BOUNDARY.get(fam, []))):
+                    # FreeEstimated as a likelihood statement (log-likelihood through the real pdf)
+                    def loglik(par):
+                        v = np.asarray(D.build(vc, fam, par).pdf(data), dtype=float)
+                        return float(np.sum(np.log(v))) if np.all(v > 0) else float("-inf")
+
+                    curf = {m: float(v) for m, v in cur.items()}
+                    ll_fit = loglik(curf)
+                    rec["llfit"].append(repr(ll_fit))
+                    if genpar is not None:
+                        rec[f"llgen{k}"] = Qc(ll_fit - loglik(genpar), 1e6, -BIG, BIG) if ll_fit > -np.inf else -BIG
+                    best = float("-inf")
+                    for m in free:
+                        for sgn in (1.01, 0.99):
+                            v = curf[m] * sgn if curf[m] != 0 else (sgn - 1.0)
+                            best = max(best, loglik(dict(curf, **{m: v})))
+                    if free:
+                        rec[f"llpert{k}"] = (Qc(ll_fit - best, 1e6, -BIG, BIG) if best > -np.inf else BIG) \
+                            if ll_fit > -np.inf else -BIG
                 rec["mid" if k == 1 else "final"] = {m: repr(float(v)) for m, v in cur.items()}
             rec["fattr"] = bool(ok_attr)
         except Exception as e:  # noqa
@@ -447,6 +496,8 @@ def judge(ctx, vc, fcases, ccases, summary=True, reps=1):
                           f"{r.get('msg1', '')!r} fdev={r['fdev1']}/{r['fdev2']}e-15 evalsame={r['evalsame']} "
                           f"fattr={r['fattr']} free changed={r['free1changed']}/{r['free2changed']} "
                           f"finite={r['free1finite']}/{r['free2finite']} final={r.get('final')} "
+                          f"loglik(fit)-loglik(generating)={r['llgen1']}/{r['llgen2']}e-6 "
+                          f"loglik(fit)-max loglik(+-1%)={r['llpert1']}/{r['llpert2']}e-6 "
                           f"ordsame={r.get('ordsame')} at {r.get('ordpos')} other={r.get('orddiff', '')}",
                           replay=dict(kind="fit", case=c, history=(clause == "CaseOrderIndependent")))
     for c, r in zip(ccases, crecs):
@@ -479,6 +530,8 @@ def selftest(ctx, frec, crec):
             (frec, "FitOutcomeAsSpecified", dict(outcome1="TypeError")),
             (frec, "FixedStable", dict(fdev2=2000)),
             (frec, "FreeEstimated", dict(free1changed=False)),
+            (frec, "FreeEstimated", dict(llpert2=-50000)),
+            (frec, "FreeEstimated", dict(llgen1=-50000)),
             (frec, "CaseOrderIndependent", dict(ordsame=False)),
             (crec, "FixedSameForAllGiven", dict(postok=False)),
             (crec, "FixedSameForAllGiven", dict(dtypeok=False)),
@@ -515,8 +568,14 @@ def run(ctx):
     ctx.assumptions = ["data lie inside the support that the declared fixed values imply (e.g. above a fixed "
                        "location); fixed values are within ~5 % of the generating parameters",
                        "all parameters fixed at once is not a proper subset and is not exercised",
-                       "FreeEstimated is observed as: every free parameter is finite and differs from its value "
-                       "before the fit",
+                       "FreeEstimated is observed as: every free parameter is finite, differs from its value before the "
+                       "fit, and (MLE) the log-likelihood through the object's own pdf at the fit is not lower than at "
+                       "the generating parameters (own-family data are generated with the fixed parameters at their fixed "
+                       "values) nor at +-1 % of each free parameter, up to 2e-3",
+                       "the likelihood statement is not applied to the scipy-vonmises subclass (scipy's fit ignores the "
+                       "scale), not to lsq/wlsq fits, and not while a parameter that moves the support boundary is free "
+                       "(Weibull gamma, Scipy loc, beta scale: non-regular likelihood, recorded limits of C12); for the "
+                       "norm-fit log-normal 'estimated' means: equal to the sample mean / sample std (ddof=1)",
                        "plain and f_ value for the same name are both passed, in three argument orders (plain keywords first, "
                        "f_ keywords first, plain values positionally + f_ keywords); the first instance runs the fits"]
     ctx.model_check("ParamRouting", "MC_ParamRouting_fit.cfg", must_cover=("NewDist", "Eval", "FitDist"))
